@@ -31,6 +31,38 @@ TEXT = {
         level_note="Trusted: snapshot through public accessors of ParameterTable; overlapping (non-LIFO) "
                    "scopes and double close() are out of scope of the statement.",
         design_ref="4 (C09)"),
+    "C07": dict(
+        technique="deterministic simulation: seeded operation histories over a pool of live quantities "
+                  "whose results re-enter the pool, snapshot oracle on every member after every step",
+        level_text="Exploration of seeded histories: up to 8 live quantities (linear, prefixed, compound, "
+                   "dimensionless, logarithmic and temperature units; float, Decimal and array magnitudes; "
+                   "with and without uncertainty) are combined by every operator, reflected operator, "
+                   "comparison, power, indexing, 20 NumPy functions and the query methods, including calls "
+                   "that raise; results enter the pool and are later converted in place, which is what "
+                   "exposes state shared between a result and its operands. After every step every member "
+                   "except the target of an explicitly in-place method must report exactly the same "
+                   "value(), units() and abse().",
+        level_note="Trusted: NumPy equality; a float that became an equal Decimal is not counted as a "
+                   "change. Sampled histories, not all.",
+        design_ref="4 (C07)"),
+    "C04": dict(
+        technique="deterministic simulation with fault injection: seeded chains of in-place to() / "
+                  "value(v) with refused conversions interleaved, ledger oracle (conserved base value) "
+                  "computed from the table rows independently of the unit parser",
+        level_text="Exploration of seeded histories: each pool member in a linear unit carries a ledger "
+                   "(base value x*f(u), dimension vector; f from the published table rows, never the "
+                   "parser). Chains of up to 30 in-place conversions and out-of-place value() queries over "
+                   "random table symbols x admissible prefixes x integer / fractional exponents x "
+                   "compounds and '#' system units: every accepted conversion must report B/f(v) within "
+                   "n*1e-12 (reciprocal rule 1/B/f(v); bare number to rad unchanged), B is conserved along "
+                   "the chain (round trip and path independence); refused conversions (other dimension, "
+                   "partially reciprocal, number to unit) must raise and leave value, units and "
+                   "uncertainty bit-identical.",
+        level_note="Only the clauses about one mutable object through a history are decided; the factor "
+                   "formula over all unit triples is sampled as a by-product, not covered. Magnitudes kept "
+                   "within 1e+-290; offset/logarithmic units excluded by the statement; bare number to "
+                   "prefixed/powered radians left open.",
+        design_ref="4 (C04)"),
 }
 
 NOT_APPLICABLE = {
@@ -58,8 +90,6 @@ NOT_APPLICABLE = {
 # claimed by DESIGN.md, machine not committed yet (listed so that the manifest is never silent
 # about a property; entries disappear as the machines land)
 PENDING = {
-    "C04": "planned (quantity machine, ledger oracle) - not built yet in this commit",
-    "C07": "planned (quantity machine, snapshot oracle) - not built yet in this commit",
     "C14": "planned (dipstore machine) - not built yet in this commit",
     "C16": "planned (dipstore machine) - not built yet in this commit",
     "C17": "planned (dipstore machine) - not built yet in this commit",
